@@ -230,6 +230,9 @@ def _history_body(info, ops):
             c1 = P.decode(n1, NN)
         opn = OPS[co]
         ck = P.decode(k, ND) if opn in ("add", "update", "replace") else 0
+        if ND == 1:
+            # small pool: still make every edit change the content (add: def0, update: def1, replace: def2)
+            ck = {"add": 0, "update": 1, "replace": 2}.get(opn, 0)
         if opn == "move":
             cd = P.decode(d, 2)
         elif opn == "replace":
